@@ -18,7 +18,7 @@ cls("pint.facets.plain.registry:RegistryCache",
 cls("pint.facets.plain.registry:GenericPlainRegistry",
     fields={"_units": "Dict[Str,Ref[UnitDefinition]]", "_dimensions": "Dict[Str,Ref[DimensionDefinition]]",
             "_cache": "Ref[RegistryCache]", "_non_int_type": "NumType", "_on_redefinition": "Str",
-            "_prefixes": "Dict[Str,Ref[PrefixDefinition]]", "_units_casei": "DDict[Str,Set[Str]]"})
+            "_prefixes": "Dict[Str,Ref[PrefixDefinition]]", "_units_casei": "DDict[Str,Set[Str]]", "Unit": "UnitClass"})
 
 # ---- spec functions (theory/axioms.py)
 specfn("d1", ["Str", "Str"], "Num")
